@@ -349,6 +349,11 @@ func (e *Exec) formatArg(st *State, spec string, verb byte, a Value) StringV {
 		if verb == 's' && plain {
 			return e.sliceToString(st, x)
 		}
+		if verb == 's' || verb == 'q' || verb == 'x' {
+			if str, ok := e.concreteString(e.sliceToString(st, x)); ok {
+				return e.constString(fmt.Sprintf(spec, []byte(str)))
+			}
+		}
 		return e.opaqueString(st, "fmt.slice")
 	case BV:
 		if x.T.konst {
